@@ -93,6 +93,10 @@ def _generate_name_for_temp(
         if expr.tags_of_type(Named):
             name_tag, = expr.tags_of_type(Named)
             assert isinstance(name_tag, Named)
+            # (the name becomes that of a placeholder / variable: '_0' would
+            # be taken for an index)
+            from pytato.array import _check_identifier
+            _check_identifier(name_tag.name, optional=False)
             if var_name_gen.is_name_conflicting(name_tag.name):
                 raise ValueError(f"Cannot assign the name {name_tag.name} to the"
                                  f" temporary corresponding to {expr} as it "
